@@ -54,7 +54,7 @@ CLAIMS = {
           "counter vs the stored message, and the WHOLE main() of qmail-qmqpd and qmail-qmtpd on every input of up to 10 bytes (12/13 thorough) plus templates "
           "with symbolic framing bytes around concrete fillers (addresses of 999/1000 bytes, recipient framing, sender, body) against a reference netstring parser; "
           "a second package on the same QMTP connection after a warm-up package that dirtied every static buffer."
-          " Disconnect or stall at any byte: timeoutread/timeoutwrite units and the daemons' saferead/safewrite never hand a non-positive count to the stream layer (exit without queuing).",
+          " Disconnect or stall at any byte: timeoutread/timeoutwrite units and the daemons' saferead/safewrite never hand a non-positive count to the stream layer (exit without queuing). blast_databytes: with databytes in force the real blast()/put() flag the transaction iff more than databytes decoded bytes are handed over; qmail-queue's whole main() (C01 queue_order) is part of this check: an envelope that ends without its terminator is refused.",
   "note": "fork/pipe/exec/wait stubbed (the queue program is represented by its C01 contract); hop counts 98..101 are not executed (counter proved equal to the "
           "reference count for counts 0..1, smtp_data proved for every symbolic count); exit-82 custom text assumed to start with D or Z as qmail-queue(8) documents; "
           "more than two packages per QMTP connection and write errors towards the client outside.",
@@ -160,7 +160,7 @@ CLAIMS = {
           "by a symbolic number of steps inside every daemon system call (= every interleaving at system-call granularity, K=5..6 loop iterations): whenever "
           "the daemon blocks, every published todo entry was seen by the scan or the trigger descriptor is readable (no lost wake-up); no busy rescanning "
           "once injectors are quiet; select timeout 0 iff work is pending or due, otherwise positive and <= earliest-due - now + SLEEP_FUZZ."
-          " A HUP may interrupt any select() of the lost-wake-up harness (real sighup()/reread()).",
+          " A HUP may interrupt any select() of the lost-wake-up harness (real sighup()/reread()); in the timeout harness 0..timeout seconds pass inside every select(), EINTR included, and the reference uses the true clock.",
   "note": "FIFO and directory-stream semantics are a model (stated in evidence.stubs); injector step order is what C01 proves about qmail-queue; clock "
           "stands still in the lost-wake-up query; other subsystems of main() cut; HASNAMEDPIPEBUG1 variant not compiled.",
  },
